@@ -407,10 +407,7 @@ def method(E, st, recv: V, name, args, kw, n):
         if name == "update":
             if args:
                 (d2, v2), _ = ops.dict_parts(st, args[0])
-                x = z3.Const("k!upd%d" % fresh(INT).t.hash(), sort_of(kt))
-                ndom = z3.Lambda([x], z3.Or(z3.Select(dom, x), z3.Select(d2, x)))
-                nval = z3.Lambda([x], z3.If(z3.Select(d2, x), z3.Select(v2, x), z3.Select(val, x)))
-                dom, val = ndom, nval
+                dom, val = ops.dict_merge(dom, val, d2, v2, kt, vt)
             for kk, v in kw.items():
                 if kk == "**":
                     raise Unsupported("update(**x)")
@@ -455,7 +452,7 @@ def method(E, st, recv: V, name, args, kw, n):
             else:
                 odom = ops.set_parts(st, other)
             r = st.new_ref(SET(et))
-            st.set_set(r, z3.Lambda([x], z3.And(z3.Select(dom, x), z3.Select(odom, x))))
+            st.set_set(r, z3.Map(z3.And(z3.Bool("a"), z3.Bool("b")).decl(), dom, odom))
             yield st, r
             return
         raise Unsupported("set.%s" % name)
